@@ -27,15 +27,23 @@ def _env():
 
 
 class BuildLock:
+    """inter-process lock around everything that touches lean/PvModel/Generated and .lake (re-entrant within a process)"""
+    depth = 0
+    f = None
+
     def __enter__(self):
-        WORK.mkdir(exist_ok=True)
-        self.f = open(WORK / "build.lock", "w")
-        fcntl.flock(self.f, fcntl.LOCK_EX)
+        if BuildLock.depth == 0:
+            WORK.mkdir(exist_ok=True)
+            BuildLock.f = open(WORK / "build.lock", "w")
+            fcntl.flock(BuildLock.f, fcntl.LOCK_EX)
+        BuildLock.depth += 1
         return self
 
     def __exit__(self, *a):
-        fcntl.flock(self.f, fcntl.LOCK_UN)
-        self.f.close()
+        BuildLock.depth -= 1
+        if BuildLock.depth == 0:
+            fcntl.flock(BuildLock.f, fcntl.LOCK_UN)
+            BuildLock.f.close()
 
 
 def regenerate_facts() -> dict:
@@ -48,12 +56,19 @@ def regenerate_facts() -> dict:
     repo = Path(os.environ.get("PV_REPO", "/repo"))
     algos, core = tr.translate(repo)
     a_lean, c_lean = tr.render_lean(algos, core)
+    # population skeletons (C10 / C17): tools/popexp.py -> Generated/Steps.lean
+    spec2 = importlib.util.spec_from_file_location("pv_popexp", VERIF / "tools" / "popexp.py")
+    px = importlib.util.module_from_spec(spec2)
+    spec2.loader.exec_module(px)
+    steps = px.classify(repo)
+    s_lean = px.render_lean(steps)
     with BuildLock():
         tr.write_if_changed(LEAN_DIR / "PvModel" / "Generated" / "Algos.lean", a_lean)
         tr.write_if_changed(LEAN_DIR / "PvModel" / "Generated" / "Core.lean", c_lean)
+        tr.write_if_changed(LEAN_DIR / "PvModel" / "Generated" / "Steps.lean", s_lean)
         WORK.mkdir(exist_ok=True)
-        (WORK / "facts.json").write_text(json.dumps({"algos": algos, "core": core}, indent=1))
-    return {"algos": algos, "core": core}
+        (WORK / "facts.json").write_text(json.dumps({"algos": algos, "core": core, "steps": steps}, indent=1))
+    return {"algos": algos, "core": core, "steps": steps}
 
 
 def lake_build(targets: list[str], timeout=1800) -> tuple[bool, str]:
